@@ -90,3 +90,29 @@ class OldSig(_Base):
         LOG.append(["step", [time, inputs], {}])
         _maybe_fail()
         return time + 1
+
+
+class OldSigOfV3(V3SigDefault):
+    """Old signatures in a class DERIVED from one with v3 signatures (the parent class is started earlier in the same process)."""
+
+    def init(self, sid, step_size=1):
+        LOG.append(["init", [sid], {"step_size": step_size, "__got_time_resolution__": False}])
+        return CONFIG["meta"]
+
+    def step(self, time, inputs):
+        LOG.append(["step", [time, inputs], {}])
+        _maybe_fail()
+        return time + 1
+
+
+class V3SigOfOld(OldSig):
+    """v3 signatures in a class DERIVED from one with old signatures."""
+
+    def init(self, sid, time_resolution="absent", **params):
+        LOG.append(["init", [sid], dict(params, __got_time_resolution__=time_resolution != "absent")])
+        return CONFIG["meta"]
+
+    def step(self, time, inputs, max_advance="absent"):
+        LOG.append(["step", [time, inputs] + ([max_advance] if max_advance != "absent" else []), {}])
+        _maybe_fail()
+        return time + 1
